@@ -84,7 +84,7 @@ pub fn json_items() -> Vec<Item> {
     vec![
         js("obj-fixed", json!({"type":"object","properties":{"name":{"type":"string"},"age":{"type":"integer"}},"required":["name","age"],"additionalProperties":false}), &["{\"name\":\"ab\",\"age\":12}"]),
         js("obj-opt", json!({"type":"object","properties":{"a":{"type":"boolean"},"b":{"type":"null"},"c":{"type":"integer"}},"required":["b"],"additionalProperties":false}), &["{\"a\":true,\"b\":null}", "{\"b\":null,\"c\":3}"]),
-        js("enum-prefix", json!({"enum":["hello","help","helium",12,true]}), &["\"hello\"", "\"help\"", "12", "true"]),
+        js("enum-prefix", json!({"enum":["hello","help","helium",12,true]}), &["\"hello\"", "\"help\"", "\"helium\"", "12", "true"]),
         js("const-obj", json!({"const":{"k":[1,"x"]}}), &["{\"k\":[1,\"x\"]}"]),
         js("str-len", json!({"type":"string","minLength":1,"maxLength":3}), &["\"ab\"", "\"\\n\""]),
         js("str-pattern", json!({"type":"string","pattern":"^[a-c]{2}x$"}), &["\"abx\""]),
